@@ -39,6 +39,9 @@ def _rebuild(res):
             'first_n of _left and n_from_k of _mid')
 
 
+CONFORMANCE = {"_mid": [{"text": "hello", "start_num": 2, "num_chars": 3}, {"text": "hello", "start_num": 0, "num_chars": 3}, {"text": "", "start_num": 1, "num_chars": 0}, {"text": "abc", "start_num": 4, "num_chars": 2}, {"text": "abc", "start_num": 3, "num_chars": 9}, {"text": "abc", "start_num": 1, "num_chars": -1}], "_left": [{"text": "hello", "num_chars": 2}, {"text": "", "num_chars": 2}, {"text": "abc", "num_chars": 0}, {"text": "abc", "num_chars": -1}, {"text": "abc", "num_chars": 7}], "_right": [{"text": "hello", "num_chars": 2}, {"text": "", "num_chars": 0}, {"text": "abc", "num_chars": 3}, {"text": "abc", "num_chars": 9}]}
+
+
 def run(ctx):
     res = PropResult('C17')
     K.k1_block(res, ctx, MOD, K1, 'C17.')
@@ -47,6 +50,7 @@ def run(ctx):
     K.canary_contract(res, MOD, '_mid', 'n_from_k',
                       'implies(I(start_num) >= 1 and I(num_chars) >= 0, is_str(result) and '
                       'S(result) == substr(text, I(start_num), max(0, min(I(num_chars), slen(text) - I(start_num) + 1))))')
+    K.conformance(res, 'contracts.rt', CONFORMANCE)
     K.monitor_if_present(res, ctx, 'mon_c17')
     res.trusted_base += ['z3 sequence theory (str.substr, str.++, str.len)', 'L-SUBST']
     res.assumptions += ['A-STR: strings are sequences of code points', 'texts are str and counts are int (the operand kinds of '
